@@ -334,6 +334,12 @@ func (w *World) enabled() []Event {
 		if w.pcheckBusy(hw.Inst) {
 			continue // determinism rule, DESIGN §2.5
 		}
+		if in != nil && (in.inStopCall > 0 || in.stopDone) {
+			// the election context is (being) cancelled: the watch loop's select would
+			// find both its Done case and the notification ready and pick one at random
+			// (determinism rule, DESIGN §2.5); the loop is about to end anyway
+			continue
+		}
 		head := hw.queue[0]
 		desc := "nil"
 		if !head.Nil {
